@@ -245,6 +245,58 @@ def _eliminate_aliases(fn: ast.AST, params: set[str]) -> None:
             return
 
 
+def _propagate_copies(fn: ast.AST, params: set[str]) -> None:
+    """`x = y` (two local names) where x is bound only here, every read of x comes later inside the block the statement is in, and
+    y is never bound after the statement: x is y wherever it is read - the reads are renamed and the statement dropped.  (What a
+    consumer's `for x in gen(..)` leaves behind once the generator's `yield y` is substituted while the generator goes on
+    using y.)"""
+    for _ in range(30):
+        set_parents(fn)
+        names = _ordered_names(fn)
+        pos = {id(n): i for i, n in enumerate(names)}
+        done = False
+        for blk in _blocks(fn):
+            for st in blk:
+                if not (isinstance(st, ast.Assign) and len(st.targets) == 1 and isinstance(st.targets[0], ast.Name) and isinstance(st.value, ast.Name)):
+                    continue
+                x, y = st.targets[0].id, st.value.id
+                if x == y or x in params:
+                    continue
+                if sum(1 for n in names if n.id == x and isinstance(n.ctx, (ast.Store, ast.Del))) != 1:
+                    continue
+                if any(isinstance(a, (ast.ExceptHandler)) and a.name in (x, y) for a in ast.walk(fn)) or any(isinstance(a, (ast.Global, ast.Nonlocal)) for a in ast.walk(fn)):
+                    continue
+                here = pos[id(st.value)]
+                reads = [n for n in names if n.id == x and isinstance(n.ctx, ast.Load)]
+                if not reads or any(pos[id(n)] < here for n in reads):
+                    continue
+                if any(n.id == y and isinstance(n.ctx, (ast.Store, ast.Del)) and pos[id(n)] > here for n in names):
+                    continue
+                # every read sits in the block of the statement (or deeper), after it; not inside a nested function
+                inside = True
+                for n in reads:
+                    chain = [n, *ancestors(n)]
+                    if any(isinstance(a, (ast.FunctionDef, ast.AsyncFunctionDef, ast.Lambda)) and a is not fn for a in chain):
+                        inside = False
+                        break
+                    if not any(any(c is b for b in blk) for c in chain):
+                        inside = False
+                        break
+                if not inside:
+                    continue
+                for n in reads:
+                    n.id = y
+                blk.remove(st)
+                if not blk:
+                    blk.append(ast.copy_location(ast.Pass(), st))
+                done = True
+                break
+            if done:
+                break
+        if not done:
+            return
+
+
 def _negated(e: ast.expr) -> ast.expr:
     if isinstance(e, ast.UnaryOp) and isinstance(e.op, ast.Not):
         return e.operand
@@ -713,39 +765,79 @@ def _generator_comprehensions_to_loops(repo: Repo, view: FuncInfo) -> bool:
                 taken.add(name)
                 return name
 
-    def rewrite(st: ast.stmt) -> list[ast.stmt] | None:
-        if not (isinstance(st, (ast.Return, ast.Assign, ast.AnnAssign)) and getattr(st, "value", None) is not None):
-            return None
-        val = st.value
-        kind = None
-        comp = val
-        if isinstance(val, ast.Call) and isinstance(val.func, ast.Name) and val.func.id in ("set", "list") and len(val.args) == 1 and not val.keywords and isinstance(val.args[0], ast.GeneratorExp):
-            kind, comp = val.func.id, val.args[0]
-        elif isinstance(val, ast.SetComp):
+    def over_generator(e: ast.AST):
+        """(kind, generators, element, wrapper) when `e` collects what a repo generator helper yields: a comprehension whose first
+        generator iterates the helper, `set(<genexp>)`, or the helper's result handed to a collection constructor (`set(gen(..))`)."""
+        kind = wrapper = None
+        comp = e
+        if isinstance(e, ast.Call) and isinstance(e.func, ast.Name) and e.func.id in ("set", "list", "frozenset", "tuple", "sorted") and len(e.args) == 1 and not e.keywords:
+            kind = "set" if e.func.id in ("set", "frozenset") else "list"
+            wrapper = e.func.id if e.func.id in ("frozenset", "tuple", "sorted") else None
+            comp = e.args[0]
+            if isinstance(comp, ast.Call):
+                f = _helper_of(repo, view, comp)
+                if f is None or not _is_generator(f):
+                    return None
+                x = fresh()
+                gen = ast.comprehension(target=ast.Name(id=x, ctx=ast.Store()), iter=comp, ifs=[], is_async=0)
+                return kind, [gen], ast.Name(id=x, ctx=ast.Load()), wrapper
+            if not isinstance(comp, (ast.GeneratorExp, ast.ListComp, ast.SetComp)):
+                return None
+        elif isinstance(e, ast.SetComp):
             kind = "set"
-        elif isinstance(val, ast.ListComp):
+        elif isinstance(e, (ast.ListComp, ast.GeneratorExp)):
             kind = "list"
         if kind is None or not comp.generators or any(g_.is_async for g_ in comp.generators) or not isinstance(comp.generators[0].iter, ast.Call):
             return None
-        g = comp.generators[0]
-        f = _helper_of(repo, view, g.iter)
+        f = _helper_of(repo, view, comp.generators[0].iter)
         if f is None or not _is_generator(f):
             return None
-        acc = fresh()
-        init = ast.copy_location(ast.Assign(targets=[ast.Name(id=acc, ctx=ast.Store())], value=ast.Call(func=ast.Name(id=kind, ctx=ast.Load()), args=[], keywords=[])), st)
-        add = ast.copy_location(ast.Expr(value=ast.Call(func=ast.Attribute(value=ast.Name(id=acc, ctx=ast.Load()), attr="add" if kind == "set" else "append", ctx=ast.Load()), args=[comp.elt], keywords=[])), st)
+        return kind, list(comp.generators), comp.elt, wrapper
+
+    def loops(gens: list, add: ast.stmt, at: ast.stmt) -> ast.stmt:
         # `[e for a in G if c for b in I if d]` is `for a in G: if c: for b in I: if d: acc.append(e)` (same evaluation order)
         body: list[ast.stmt] = [add]
         loop = None
-        for g_ in reversed(comp.generators):
+        for g_ in reversed(gens):
             for c in reversed(g_.ifs):
-                body = [ast.copy_location(ast.If(test=c, body=body, orelse=[]), st)]
-            loop = ast.copy_location(ast.For(target=g_.target, iter=g_.iter, body=body, orelse=[]), st)
+                body = [ast.copy_location(ast.If(test=c, body=body, orelse=[]), at)]
+            loop = ast.copy_location(ast.For(target=g_.target, iter=g_.iter, body=body, orelse=[]), at)
             for n in ast.walk(loop.target):
                 if isinstance(n, (ast.Name, ast.Tuple, ast.List)):
                     n.ctx = ast.Store()
             body = [loop]
-        st.value = ast.copy_location(ast.Name(id=acc, ctx=ast.Load()), val)
+        return loop
+
+    def adder(recv: ast.expr, method: str, elt: ast.expr, at: ast.stmt) -> ast.stmt:
+        return ast.copy_location(ast.Expr(value=ast.Call(func=ast.Attribute(value=recv, attr=method, ctx=ast.Load()), args=[elt], keywords=[])), at)
+
+    def rewrite(st: ast.stmt) -> list[ast.stmt] | None:
+        # `X.extend(<comprehension over gen(..)>)` / `X.update(..)` / `X += [..]` / `X |= {..}`: the elements are added one by one
+        if isinstance(st, ast.Expr) and isinstance(st.value, ast.Call) and isinstance(st.value.func, ast.Attribute) and st.value.func.attr in ("extend", "update") and isinstance(st.value.func.value, ast.Name) and len(st.value.args) == 1 and not st.value.keywords:
+            got = over_generator(st.value.args[0])
+            if got is not None and got[3] is None:
+                return [loops(got[1], adder(_clone(st.value.func.value), "append" if st.value.func.attr == "extend" else "add", got[2], st), st)]
+            return None
+        if isinstance(st, ast.AugAssign) and isinstance(st.op, (ast.Add, ast.BitOr)) and isinstance(st.target, ast.Name):
+            got = over_generator(st.value)
+            if got is not None and got[3] is None:
+                recv = ast.copy_location(ast.Name(id=st.target.id, ctx=ast.Load()), st.target)
+                return [loops(got[1], adder(recv, "append" if isinstance(st.op, ast.Add) else "add", got[2], st), st)]
+            return None
+        if not (isinstance(st, (ast.Return, ast.Assign, ast.AnnAssign)) and getattr(st, "value", None) is not None):
+            return None
+        val = st.value
+        got = over_generator(val)
+        if got is None:
+            return None
+        kind, gens, elt, wrapper = got
+        acc = fresh()
+        init = ast.copy_location(ast.Assign(targets=[ast.Name(id=acc, ctx=ast.Store())], value=ast.Call(func=ast.Name(id=kind, ctx=ast.Load()), args=[], keywords=[])), st)
+        loop = loops(gens, adder(ast.Name(id=acc, ctx=ast.Load()), "add" if kind == "set" else "append", elt, st), st)
+        ref: ast.expr = ast.copy_location(ast.Name(id=acc, ctx=ast.Load()), val)
+        if wrapper is not None:
+            ref = ast.copy_location(ast.Call(func=ast.Name(id=wrapper, ctx=ast.Load()), args=[ref], keywords=[]), val)
+        st.value = ref
         return [init, loop, st]
 
     def block(stmts: list[ast.stmt]) -> list[ast.stmt]:
@@ -914,6 +1006,7 @@ def search_view(repo: Repo, fi: FuncInfo) -> FuncInfo:
     _project_tuples(node)
     node.body = _thread_none_exits(node.body)
     _eliminate_aliases(node, set(fi.param_names))
+    _propagate_copies(node, set(fi.param_names))
     _expand_superset_tests(node, set(fi.param_names))
     node.body = _split_conditions(node.body)
     ast.fix_missing_locations(node)
